@@ -19,6 +19,10 @@ type MonitorResult struct {
 	Verdict   Verdict
 }
 
+// SendTimerStallIsVerdict makes Monitor return the outcome "send-timer-stall" as soon as a snapshot shows that only
+// the server's send timeout can still fire (set by the checks that judge healthy connections).
+var SendTimerStallIsVerdict = false
+
 // Monitor drives logical-time scheduling: whenever the system is quiescent it
 // asks onQuiescent to let something parked continue; if nothing is parked the
 // system is dead. done must be safe to call concurrently with the session.
@@ -55,6 +59,11 @@ func Monitor(done func() bool, onQuiescent func(*Snapshot, Verdict) bool, wall t
 			}
 			if v.Dead() {
 				res.Outcome, res.Snap, res.Verdict = "deadlock", snap, v
+				return res
+			}
+			if SendTimerStallIsVerdict && v.SendTimerStall() && !Y.HasPaused() {
+				// logical verdict, no waiting: only the 60 s send timeout can move this state on
+				res.Outcome, res.Snap, res.Verdict = "send-timer-stall", snap, v
 				return res
 			}
 			// only SDK timers can move the system on: keep waiting (ends inconclusive)
